@@ -6,23 +6,33 @@ from vlib import core
 TRUST = ("Lean 4.33 kernel; axioms at most propext/Classical.choice/Quot.sound (audited per run by #audit_module); "
          "hand-written model tied to the C++ by the correspondence harness (differential, generator-bounded); ")
 MANIFEST = dict(
-  text=("Theorems (Props/C09.lean) for every finite history of valid CachedMatrix operations, every size and capacity: "
-        "cached/returned/storage-copied entries equal the base matrix under the current permutation, size accounting, "
-        "capacity bound, LRU list = cached lines, two most recent rows survive a third fetch iff capacity allows "
-        "(with a decide-checked witness for the converse); wrapper matrices (regularised, modified, precomputed, 2x2-block, difference, partly precomputed) "
-        "equal the direct kernel formula at the permuted original indices after any flip history. The model (Model/Cache.lean) is tied to the real "
-        "LRUCache/CachedMatrix by an exact line-by-line correspondence over random histories (double and float caches) "
-        "under ASan/UBSan, plus an independent in-harness property oracle."),
-  note=TRUST + "memory safety of the real object code is runtime evidence (ASan/UBSan over the generated histories), the theorem is about the model; "
-       "wrapper matrices: Kernel/Regularized/Modified/Precomputed/Block2x2/Difference/PartlyPrecomputed are modelled and proved for all flip histories over an arbitrary kernel function; "
-       "tied on integer points with the linear kernel; GaussianKernelMatrix is covered by a toleranced in-harness oracle only (not modelled), ExampleModifiedKernelMatrix is not covered; matrix() is only exercised before the first flip.",
-  technique="Lean 4 invariant proof by induction over operation histories + differential correspondence with the C++ (ASan/UBSan)",
-  design="§6 C09")
+  text=("Theorems (Props/C09.lean, 75 obligations) about a statement-level model of LRUCache/CachedMatrix<Matrix> (junk-filled fresh buffers, "
+        "bounds-checked accesses, the intrusive-list surgery of swapLineIndices case by case, buffer identities): "
+        "cachedMatrix_refines_spec -- for every base-matrix class whose ranged row writes its entries and whose flip exchanges two variables, every size, "
+        "capacity and finite history of row/rows/entry/flip/setMaxCachedIndex/clear calls that meet the SIZE_CHECK guards in the state they are issued in "
+        "(zero-length requests admitted on cached lines), no access leaves a buffer, the observations are those of (i,j) -> entry0(pi i, pi j), and size accounting, "
+        "capacity bound, LRU list = cached lines (no duplicates), truth of every held value hold in every reachable state; swapLineIndicesIL_eq -- the four list cases of the C++ "
+        "refine the renaming i<->j; smo_three_rows_valid -- rows i, j stay the same buffers with the same contents while a third row is fetched if capacity allows "
+        "(decide-checked witness for the converse); request_beyond_capacity_is_stuck -- below the capacity guard eviction runs out of lines. "
+        "All nine wrapper classes (Kernel, Gaussian, Regularized, Modified, ExampleModified, Difference, Block2x2, Precomputed, PartlyPrecomputed) are modelled with entry, "
+        "ranged row, flip and matrix(); *_lawful / lawful_row_true / *_entry_true prove entry and every row range equal to the direct formula at the permuted original indices "
+        "for all flip histories, and make them instances of the end-to-end theorem. The driver runs this model against the real classes -- a real CachedMatrix on top of every "
+        "wrapper -- line by line (LRU order, line contents, buffer identities; double and float caches) under ASan/UBSan, with an independent in-harness oracle (direct formula, "
+        "accounting, pointer stability)."),
+  note=TRUST + "memory safety of the real object code is runtime evidence (ASan/UBSan over the generated histories); the theorem is that the model's bounds-checked accesses never fail; "
+       "models are hand-written and tied by exact correspondence only (no translator), two source flags (KernelMatrix::matrix honours flips; ExampleModifiedKernelMatrix flips its scaling) are read off the source by the check; "
+       "GaussianKernelMatrix is tied through the squared distance decoded from the returned exp (the exp itself is libm's) plus a toleranced comparison with GaussianRbfKernel; "
+       "ExampleModifiedKernelMatrix is tied with power-of-two scaling coefficients and no missing features; PartlyPrecomputedMatrix has no flips/ranged row and is checked stand-alone; "
+       "buffer identities are observed as serials of distinct data pointers (ASan quarantine assumed); ModifiedKernelMatrix row = entry needs commutativity of the value type's multiplication (hypothesis of modified_lawful); "
+       "open findings K2 (matrix() ignores flips), F-C09-1 (ExampleModified flip leaves scaling in place), F-C09-2/3 (members that cannot be instantiated) are reported as KNOWN-FINDING, model follows the code as written.",
+  technique="Lean 4 refinement proof (statement-level model ⊑ abstract model ⊑ specification) by induction over operation histories + differential correspondence with the C++ (ASan/UBSan) + compile probes",
+  design="§6 C09, §14")
 
 FINISH = dict(level="proof",
-              rule="histories of CachedMatrix ops (row/rows/entry/flip/maxidx/clear) and raw LRUCache ops "
-                   "(get/resize/mark/swap) from one SplitMix64 stream; a case is non-trivial if it evicts, "
-                   "resizes or flips a cached line at least once; distinct = distinct op text")
+              rule="histories of CachedMatrix ops (row/rows/entry/flip/maxidx/clear) over a synthetic base and over every wrapper class, and raw LRUCache ops "
+                   "(get/resize/mark/swap), from one SplitMix64 stream; generators for LRU pressure, multi-line eviction, the SMO three-row pattern with shrinking, "
+                   "all four swapLineIndices cases; what the histories do is measured by running the model (row_requests, swapLineIndices_cases, third_row_after_two, ...); "
+                   "a case is non-trivial if it flips, swaps or resizes at least once; distinct = distinct op text")
 
 
 def cm_ops(r, n, cap, maxlen, pre=""):
@@ -47,7 +57,7 @@ def cm_ops(r, n, cap, maxlen, pre=""):
             ops.append(f"{pre}rows {k} {s_} {e}")
         elif x < 80:
             i = r.below(n)
-            j = r.choice([r.below(n), (i + 1) % n, i])
+            j = r.choice([r.below(n), r.below(n), r.below(n), (i + 1) % n, (i + 1) % n, i])
             ops.append(f"{pre}flip {i} {j}")
         elif x < 89:
             ops.append(f"{pre}maxidx {r.range(0, n)}")     # may cut below the length of cached lines
@@ -77,6 +87,22 @@ def gen_evict_case(r, maxlen):
         if r.chance(1, 3): ops.append(f"flip {r.below(n)} {r.below(n)}")
         ops.append(f"row {r.below(n)} {n}")
         if r.chance(1, 2): ops.append(f"row {r.below(n)} {r.range(n - 1, n)}")
+    return ops
+
+
+def gen_swap_case(r, maxlen):
+    """many cached lines of different lengths, then flips between lines that are adjacent / far apart / at the two
+    ends of the LRU list, with partially cached columns (the four list cases of swapLineIndices)"""
+    n = r.range(3, 8)
+    ops = [f"new {n} {n * n}"]
+    order = list(range(n))
+    for k in order[:r.range(2, n)]:
+        ops.append(f"row {k} {r.range(1, n)}")
+    for _ in range(r.range(2, 12)):
+        x = r.below(10)
+        if x < 7: ops.append(f"flip {r.below(n)} {r.below(n)}")
+        elif x < 9: ops.append(f"row {r.below(n)} {r.range(1, n)}")
+        else: ops.append(f"rows {r.below(n)} 0 {n}")
     return ops
 
 
@@ -382,7 +408,7 @@ def run(ctx):
     drv = ctx.driver("drv_c09")
     if not exe or not exeb or not drv:
         return
-    ncm, nlru, maxlen = (150, 100, 60) if ctx.quick else (1500, 800, 400)
+    ncm, nlru, maxlen = (300, 150, 60) if ctx.quick else (2000, 1000, 400)
     corpus = load_corpus()
     cases = [c for c in corpus if not c[0].startswith("w")]
     ctx.cov["corpus_cases"] = len(corpus)
@@ -392,6 +418,7 @@ def run(ctx):
     cases += [gen_pressure_case(r, min(maxlen, 40)) for _ in range(ncm // 2)]
     cases += [gen_evict_case(r, maxlen) for _ in range(ncm // 3)]
     cases += [gen_smo_case(r, min(maxlen, 80)) for _ in range(ncm // 2)]
+    cases += [gen_swap_case(r, maxlen) for _ in range(ncm // 2)]
     for c in cases:
         for o in c:
             ctx.hist("op_mix", o.split()[0])
@@ -406,7 +433,7 @@ def run(ctx):
     for ty in ("double", "float"):
         core.correspond(ctx, f"K-C09[{ty}]", cases, [exe, ty], [drv], classify)
     # wrapper matrices, alone and under a CachedMatrix
-    nw, wl = (150, 25) if ctx.quick else (1500, 80)
+    nw, wl = (300, 25) if ctx.quick else (2000, 80)
     wcorpus = [c for c in corpus if c[0].startswith("w")]
     wcases = []
     for c in wcorpus:
